@@ -58,6 +58,11 @@ pub fn shorten(file: &str) -> String {
             return format!("dep:{}", &rest[j + 1..]);
         }
     }
+    if file.starts_with("/rustc/") {
+        if let Some(j) = file[7..].find('/') {
+            return format!("rust:{}", &file[7 + j + 1..]);
+        }
+    }
     if let Some(i) = file.find("/verif/") {
         return format!("verif:{}", &file[i + 7..]);
     }
